@@ -16,6 +16,7 @@ def run(ctx):
     py = ctx.python()
     lib_file.fread_exact(ctx, P)
     lib_file.offsets_cover(ctx, P)
+    lib_file.read_validated(ctx, P)
     lib_file.inventory(ctx, P)
     lib_file.layout_agreement(ctx, P)
     lib_file.error_translation(ctx, P, py)
